@@ -489,7 +489,9 @@ func runC01Proc(c C01ProcCase, _ bool) *fOutcome {
 		for k := 0; k < 20 && got < leasedLeft; k++ {
 			r := do("POST", fmt.Sprintf("http://127.0.0.1:%d/pull/p/dequeue", pPull), []byte(`{"batch":100,"lease_ttl":"30s"}`), map[string]string{"Content-Type": "application/json", "Authorization": "Bearer t"})
 			var resp struct {
-				Items []struct{ ID string `json:"id"` } `json:"items"`
+				Items []struct {
+					ID string `json:"id"`
+				} `json:"items"`
 			}
 			_ = json.Unmarshal(r.body, &resp)
 			if len(resp.Items) == 0 {
